@@ -366,7 +366,12 @@ template< typename T, typename F>
 {
    if (mpObject != nullptr)
    {
-      if (mIndex > 0)
+      if (mIndex == EndValue)
+      {
+         // decrementing end() gives the last character, like for std::string
+         if (!mpObject->empty())
+            mIndex = mpObject->length() - 1;
+      } else if (mIndex > 0)
          --mIndex;
       else
          mIndex = EndValue;
@@ -403,9 +408,14 @@ template< typename T, typename F>
    FixedStringIterator< T, F>& FixedStringIterator< T, F>::operator -=( size_t value)
       noexcept
 {
-   if ((mpObject != nullptr) && (mIndex != EndValue))
+   if (mpObject != nullptr)
    {
-      if (mIndex >= value)
+      if (mIndex == EndValue)
+      {
+         // stepping back from end(), like for std::string
+         if ((value > 0) && (value <= mpObject->length()))
+            mIndex = mpObject->length() - value;
+      } else if (mIndex >= value)
          mIndex -= value;
       else
          mIndex = EndValue;
